@@ -25,6 +25,7 @@ func main() {
 	runMergeTable(f, res, drv)
 	runMachine(f, res, drv)
 	runDrop(f, res, drv)
+	runSend(f, res, drv)
 	runLatency(f, res)
 	if err := res.Write(f.Out); err != nil {
 		lib.Fatal(err)
@@ -71,6 +72,14 @@ func replay(f lib.Flags) int {
 		obs := c.runCode(nil)
 		fmt.Printf("replay drun %v -> %s\n", c.Moves, obs.answer())
 		c.monitor(m, obs)
+	case "send":
+		var c sendCase
+		if err := json.Unmarshal(raw, &c); err != nil {
+			lib.Fatal(err)
+		}
+		kind, elapsed := c.runCode()
+		fmt.Printf("replay %s -> %s after %s\n", c.line(), kind, elapsed)
+		c.monitor(m, kind, elapsed)
 	case "latency":
 		var c latencyCase
 		if err := json.Unmarshal(raw, &c); err != nil {
